@@ -141,7 +141,7 @@ reg("C20", "invariants over returned states and helper outputs: tree walk of eve
     "clearance; gait phases stay in [-pi, pi], half a cycle apart, and advance by 2*pi*f*dt per control step over 1e5-step float32 histories and along real "
     "transition rollouts; desired foot height stays in [0, h], 0 at +-pi, h at 0.",
     "Trusts the MuJoCo C engine for reference kinematics; half-cycle separation tolerance 1e-4 + 1e-6*n over n steps (float32 accumulation, measured); "
-    "quick tier uses G1Standing only (other tasks compile for minutes).")
+    "both tiers run every unit (stepped episodes of all three G1 tasks take about 30 s each); the thorough tier differs by sample sizes.")
 
 reg("C01", "history + executable model: tuples returned by the real jitted env.step/env.reset compared with the functional components evaluated separately on the same (state, action), per-environment initial-support predicates, independent Python clocks for TimeLimit layers and a table interpreter for finite MDPs",
     "Held on every step explored: for finite MDPs under 12-24 wrapper stacks, all classic-control envs (bare and stacked), MuJoCo envs and G1Standing the "
@@ -155,7 +155,7 @@ reg("C01", "history + executable model: tuples returned by the real jitted env.s
 reg("C17", "differential monitor against the reference implementation: Gymnasium 1.3.0 classic-control envs driven to the same state; for MuJoCo model identity, Gymnasium's own step() computing obs/reward/terminated/info from lerax's simulation data (and the reverse), and the C engine on contact-free steps",
     "Held on every state explored: classic control - vector field, state limits (incl. the left wall), reward (incl. the goal step), termination and initial "
     "range of CartPole, MountainCar, ContinuousMountainCar and Acrobot equal Gymnasium's over the whole state box, and CartPole+Euler reproduces Gymnasium "
-    "step for step; MuJoCo (4 light envs quick, all 11 thorough, constructor options toggled) - 484 model arrays identical, reset observations equal, "
+    "step for step, and the vector fields still coincide with non-default physical constants on both sides; MuJoCo (all 11 envs in both tiers, constructor options toggled) - 484 model arrays identical, reset observations equal, "
     "Gymnasium's unmodified step() fed with lerax's data reproduces lerax's observation/reward/termination/reward components to 1e-4 (and lerax's formulas "
     "on the C engine's data reproduce Gymnasium's), contact-free one-step dynamics agree to 1e-3, cfrc_ext is populated on contact steps.",
     "Trusts Gymnasium 1.3.0 and the MuJoCo 3.13 C engine as reference; steps with contacts are compared structurally only (MJX and the C engine are "
